@@ -68,7 +68,9 @@ static rc::Gen<std::string> password() {
         {1, gen::element<std::string>("\xef\xac\x81", "\xef\xbc\xa1\xef\xbd\x82", "\xe2\x84\xab", "\xc7\x86", "\xe3\x8d\xbf", "\xe2\x91\xa0", "\xc2\xbd", "\xe3\x80\x80", "\xc2\xa0", "\xef\xb7\xba")},   // fi ligature, full-width Ab, Angstrom, dz-caron, square Kabushiki, circled 1, 1/2, ideographic space, NBSP, Arabic ligature (expands x18)
         {1, gen::map(gen::container<std::vector<uint32_t>>(gen::weightedOneOf<uint32_t>({{3, gen::inRange<uint32_t>(0xA0, 0x3000)}, {1, gen::inRange<uint32_t>(0x300, 0x370)}, {1, gen::inRange<uint32_t>(0xAC00, 0xD7A4)}, {1, gen::inRange<uint32_t>(0x10000, 0x1F000)}})), [](std::vector<uint32_t> v) { for (auto& c : v) if (c >= 0xD800 && c < 0xE000) c = 0x41; return model::utf8(v); })},
     });
-    return gen::resize(100, gen::weightedOneOf<std::string>({{1, gen::just(std::string())}, {8, gen::map(gen::resize(4, gen::container<std::vector<std::string>>(gen::resize(12, piece))), [](std::vector<std::string> v) { std::string s; for (auto& p : v) s += p; return s; })}}));
+    // characters that text tools like to strip or fold: byte order mark, zero-width space/joiner, soft hyphen, word joiner, variation selector — at either end
+    Gen<std::string> special = gen::element<std::string>("\xef\xbb\xbf", "\xe2\x80\x8b", "\xe2\x80\x8d", "\xc2\xad", "\xe2\x81\xa0", "\xef\xb8\x8f", "\t", "\n", " ", "\xc2\xa0");
+    return gen::resize(100, gen::weightedOneOf<std::string>({{1, gen::just(std::string())}, {2, gen::apply([](std::string a, std::vector<std::string> v, std::string b, int where) { std::string s; for (auto& x : v) s += x; return where == 0 ? a + s : where == 1 ? s + b : where == 2 ? a : a + s + b; }, special, gen::resize(3, gen::container<std::vector<std::string>>(gen::resize(12, piece))), special, gen::inRange(0, 4))}, {8, gen::map(gen::resize(4, gen::container<std::vector<std::string>>(gen::resize(12, piece))), [](std::vector<std::string> v) { std::string s; for (auto& p : v) s += p; return s; })}}));
 }
 
 static void run() {
